@@ -540,4 +540,39 @@ theorem dget_mem (l : List (Nat × E)) (p : Nat × E) (hp : p ∈ l) : (dget l p
 
 theorem dget_single (i : Nat) (e : E) : dget [(i, e)] i = some e := by simp [dget]
 
+
+/-- a `run()` emits the child's own channels only, and changes `failed` at most at that child -/
+theorem react_sigs_own (rep : Bool) (nodes : Nat → Node) (exc : Nat → Nat → E) (refusal : Nat → E) (fs : FStore E)
+    (i : Nat) : (∀ e ∈ (react rep nodes exc refusal fs i).2.2, e / 4 = i) ∧
+      (∀ j, j ≠ i → (react rep nodes exc refusal fs i).1.st.failed j = fs.st.failed j) ∧
+      (∀ j, j ≠ i → (react rep nodes exc refusal fs i).1.st.attempts j = fs.st.attempts j) := by
+  simp only [react]
+  have ho := runNode_outcome nodes fs.st i
+  generalize runNode nodes fs.st i = r at ho
+  cases ho with
+  | refused _ => exact ⟨fun e he => by simp at he, fun _ _ => rfl, fun _ _ => rfl⟩
+  | completed st' _ _ hfail hatt => exact ⟨emitting_own nodes st' i, fun j _ => by rw [hfail], hatt⟩
+  | raised st' _ _ hfail _ hatt =>
+    exact ⟨emitting_own nodes st' i, fun j hj => by rw [hfail]; simp [updF, hj], hatt⟩
+
+/-- the completion log only grows -/
+theorem runNode_doneLog (nodes : Nat → Node) (st : Store) (i : Nat) :
+    ∃ l, (runNode nodes st i).1.doneLog = st.doneLog ++ l := by
+  unfold runNode
+  dsimp only
+  apply ite_ind (P := fun r : Store × Bool × List Sig => ∃ l, r.1.doneLog = st.doneLog ++ l)
+  · intro _; exact ⟨[i], rfl⟩
+  · intro _
+    apply ite_ind (P := fun r : Store × Bool × List Sig => ∃ l, r.1.doneLog = st.doneLog ++ l)
+    · intro _; exact ⟨[], by simp⟩
+    · intro _
+      cases (if (nodes i).failAt.contains (st.attempts i + 1) then none
+          else eval (nodes i).kind (fetchArgs nodes st.out i)) with
+      | some v => exact ⟨[i], rfl⟩
+      | none => exact ⟨[i], rfl⟩
+
+theorem react_doneLog (rep : Bool) (nodes : Nat → Node) (exc : Nat → Nat → E) (refusal : Nat → E) (fs : FStore E)
+    (i : Nat) : ∃ l, (react rep nodes exc refusal fs i).1.st.doneLog = fs.st.doneLog ++ l := by
+  simp only [react]; exact runNode_doneLog nodes fs.st i
+
 end PwVerif.FlowFail
